@@ -33,7 +33,7 @@ fn odd_coprime_moduli(bits: &[u32], raws: &[u64], allow_even: bool) -> Vec<u64> 
             v += if allow_even && i == 0 { 1 } else { 2 };
             if v > hi { v = lo | 1; }
             guard += 1;
-            if guard > 10_000 { v = *[3u64, 5, 7, 11, 13, 17, 19, 23, 29, 31].iter().find(|p| out.iter().all(|&o| rm::gcd(o, **p) == 1)).unwrap(); break; }
+            if guard > 10_000 { v = (3u64..).step_by(2).find(|p| out.iter().all(|&o| rm::gcd(o, *p) == 1)).unwrap(); break; } // no coprime value of that size is left: the smallest odd coprime value
         }
         out.push(v);
     }
